@@ -173,6 +173,12 @@ def handle (input impl : Json) : R Reply := do
     (if runs.any (fun r => r.points.any fun p => match lateSplit cfg.window (r.ops.take p.1) with
           | some (pre, recent) => lateRegime cfg pre recent p.2 probes
           | none => false) then ["late-regime"] else []) ++
+    (if runs.any (fun r => r.points.any fun p =>
+          let h := r.ops.take p.1
+          !regime cfg h p.2 probes && (match liveRegime cfg h p.2 probes with
+            | some tg => probes.any fun k => probeLive cfg.window tg p.2 k && (expPending tg.g k).1
+            | none => false)) then ["renewed-lock"] else []) ++
+    (if runs.any (fun r => r.points.any fun p => (liveRegime cfg (r.ops.take p.1) p.2 probes).isSome) then ["live-regime"] else []) ++
     (if base.any (fun op => match op with
           | .perform l => decide (l.confs > 10000) | .stale l => decide (l.confs > 10000) | _ => false) then ["deep-confirmations"] else []) ++
     (if cfg.minConfs > 0 then ["minconfs>0"] else [])
